@@ -4,11 +4,14 @@ mod ops;
 mod astproto;
 mod progs;
 mod parselayer;
+mod progproto;
+mod compilelayer;
 
 pub fn dispatch_answer(req: &str) -> String {
     let parts: Vec<&str> = req.split(' ').collect();
     match parts[0] {
         "PARSE" => parselayer::answer_parse(&parts),
+        "COMPILE" => compilelayer::answer_compile(req),
         _ => ops::answer(req),
     }
 }
@@ -32,6 +35,7 @@ fn main() {
         "ops-matrix" => ops::gen_matrix(&mut w, &tier, seed),
         "ops-fmt" => ops::gen_fmt(&mut w, &tier, seed),
         "parse" => parselayer::gen_parse(&mut w, &tier, seed),
+        "compile" => compilelayer::gen_compile(&mut w, &tier, seed),
         "replay" => ops::replay(&mut w),
         other => {
             eprintln!("unknown layer {}", other);
